@@ -485,6 +485,8 @@ StepPratt(s) ==
                    s2 == SetLocal(SetLocal(s1, "el", el), "br", b)
                    s3 == ElisionInit(s2, el, FALSE)
                IN SetPc(SetLocal(s3, "op", 1), 1)
+            \* [return None if in_ordered_choice] - emitted when the rule is used in a choice
+            ELSE IF R.inchoice /\ s1.ioc THEN Unwind(s1)
             ELSE IF s1.cur \in AdvErrSet(brs, 1, {}) THEN SetPc(AdvErr(s1), 2)
             ELSE SetPc(Error(s1), 2)
     [] t.pc = 1 ->
